@@ -1,0 +1,39 @@
+/*
+ * Copyright (C) 2016-2019 Istituto Italiano di Tecnologia (IIT)
+ *
+ * This software may be modified and distributed under the terms of the
+ * BSD 3-Clause license. See the accompanying LICENSE file for details.
+ */
+
+#ifndef SKIPFLAG_H
+#define SKIPFLAG_H
+
+#include <atomic>
+
+namespace bfl {
+    class SkipFlag;
+}
+
+
+/* A boolean that may be written by a controlling thread while the filtering thread reads it.
+   Unlike std::atomic<bool> it can be moved, so that classes holding it keep their defaulted move operations. */
+class bfl::SkipFlag
+{
+public:
+    SkipFlag() noexcept = default;
+
+    SkipFlag(const bool value) noexcept : value_(value) { }
+
+    SkipFlag(SkipFlag&& other) noexcept : value_(other.value_.load()) { }
+
+    SkipFlag& operator=(SkipFlag&& other) noexcept { value_ = other.value_.load(); return *this; }
+
+    SkipFlag& operator=(const bool value) noexcept { value_ = value; return *this; }
+
+    operator bool() const noexcept { return value_.load(); }
+
+private:
+    std::atomic<bool> value_{false};
+};
+
+#endif /* SKIPFLAG_H */
